@@ -18,12 +18,12 @@ CLAIMS = {
  'C09': ('other', 'S+X+T', 'var_is_free against the textbook definition for all in-scope constructors; vars/free_vars construction; quantified symbols absent from results. Also the language front end (token tables, operator tables, tokenizer regex, matched text = captured text).', 'engine S on var_is_free + dataflow rules'),
  'C10': ('other', 'X+T+S', 'Branch polarity, row-filter predicate truth table, index-domain typing of every column access, single parse path, model/retain before printing, filter spellings. Also: --filter reaches the printer and is handed down unchanged (value provenance); the rows are those of the formula: front end, evaluator and operations, model and retain are included.', 'sibling/polarity rules, finite predicate evaluation, index-domain typing'),
  'C11': ('other', 'X+H+S', 'Fresh-id counter invariant, id-based column lookup, ordering dataflow, -r sort; order-genericity of the semantic proofs is provided by C01-C05/C07/C20. The operation proofs (evaluator, C03/C04/C05 operations, fp), which hold for an arbitrary total order, are run here as the semantic core.', 'statement-pattern invariant check + dataflow + index-domain typing'),
- 'C12': ('other', 'P+G+S', 'Exhaustive MIR inventory of panic-capable sites reachable from parse/eval/CLI, each discharged by a named rule or a one-site table entry; new sites are violations by construction. Guards named by a discharge reason are decided (statistics only with at least one sample: value provenance of the condition and of the sampling loop); the free-variable analysis is proved because a panic site depends on it.', 'panic-site inventory on MIR with rule-based discharge + RefCell guard-region analysis'),
- 'C13': ('other', 'E+G+S+H', 'Single writer / key==*value / no removal / immutable Freeze nodes / result provenance / purity / no re-entrancy under the table borrow. Also: new_with_env keeps the environment it was given (provenance of the env field), Eq/Ord/Hash of the symbol read the same key.', 'who-may-write/construct rules over the resolved call graph, Freeze query, guard regions'),
+ 'C12': ('other', 'P+G+S', 'Exhaustive MIR inventory of panic-capable sites reachable from parse/eval/CLI, each discharged by a named rule or a one-site table entry; new sites are violations by construction. Guards named by a discharge reason are decided (statistics only with at least one sample: value provenance of the condition and of the sampling loop); the free-variable analysis, the capture-free substitution and the quantifier support facts (what C09 proves) are proved here too because the discharge of a panic site depends on them.', 'panic-site inventory on MIR with rule-based discharge + RefCell guard-region analysis'),
+ 'C13': ('other', 'E+G+S+H', 'Single writer / key==*value / no removal / immutable Freeze nodes / result provenance / purity / no re-entrancy under the table borrow. Also: new_with_env keeps the environment it was given (provenance of the env field), Eq/Ord/Hash of the symbol read the same key, get_hash is structural, distinct names get distinct ids, the exported diagram shows a shared node once.', 'who-may-write/construct rules over the resolved call graph, Freeze query, guard regions'),
  'C14': ('other', 'X+T', 'T/F polarity, leaf declared <=> edge emitted for all filter x child kinds, child coverage and distinct labels for all 12 syntax-node kinds. Also: labels are plain text escaped by the dot writer, node and edge lists are de-duplicated, child lists walked element by element, --filter reaches BDDGraph::new unchanged, output files are created truncating, filter spellings.', 'sibling-agreement rules over THIR matches'),
- 'C15': ('proof', 'N+L+X+T', 'Affine loop-nest analysis symbolic in n: every constraint list is proved (Fourier-Motzkin on the loop bounds, polynomial normal form of the index) to be a whole row, column, diagonal or anti-diagonal with the right operator, and the families to cover all lines, for all n >= 1; plus the integer-width clause. Text-level well-formedness of the output is not decided. Also: the output file is created truncating; the language front end (the emitted text means what the tokenizer and operator tables say).', 'polyhedral-style loop-nest analysis (polynomial normal form + Fourier-Motzkin) + MIR operand-type rule'),
- 'C16': ('other', 'L+X+T', 'Complement-edge guard truth table vs specification, same-list provenance of both constraint copies, --all switch, vertex lists. Roles of variables are found by what they do (not by spelling), storage up to local aliasing; emitted templates as token skeletons; truncating output; language front end.', 'path-condition extraction + truth-table evaluation'),
- 'C17': ('proof', 'U+X+T', 'Constraint-family analysis symbolic in root: every emitted list is proved (polynomial normal form of the cell index, div/mod digit lemma) to be a complete cell/row/column/box family, all four present; hint rule and whitespace stripping checked structurally. Modulo three arithmetic lemmas and the standard sudoku characterisation. Also: the whole input is read (read_to_string on both channels), Unicode whitespace predicate, truncating output, language front end.', 'loop-nest / constraint-family analysis by polynomial normal forms'),
+ 'C15': ('proof', 'N+L+X+T', 'Affine loop-nest analysis symbolic in n: every constraint list is proved (Fourier-Motzkin on the loop bounds, polynomial normal form of the index) to be a whole row, column, diagonal or anti-diagonal with the right operator, and the families to cover all lines, for all n >= 1; plus the integer-width clause. Text-level well-formedness of the output is not decided. Also: the output file is created truncating; the language front end, the evaluator and operations, and the listing chain (-t/-v/-f) through which the models of the emitted formula are observed.', 'polyhedral-style loop-nest analysis (polynomial normal form + Fourier-Motzkin) + MIR operand-type rule'),
+ 'C16': ('other', 'L+X+T', 'Complement-edge guard truth table vs specification, same-list provenance of both constraint copies, --all switch, vertex lists. Roles of variables are found by what they do (not by spelling), storage up to local aliasing; emitted templates as token skeletons; every record endpoint is a vertex; truncating output; language front end, evaluator and operations, listing chain.', 'path-condition extraction + truth-table evaluation'),
+ 'C17': ('proof', 'U+X+T', 'Constraint-family analysis symbolic in root: every emitted list is proved (polynomial normal form of the cell index, div/mod digit lemma) to be a complete cell/row/column/box family, all four present; hint rule and whitespace stripping checked structurally. Modulo three arithmetic lemmas and the standard sudoku characterisation. Also: the whole input is read (read_to_string on both channels), Unicode whitespace predicate, truncating output, language front end, evaluator and operations, listing chain.', 'loop-nest / constraint-family analysis by polynomial normal forms'),
  'C18': ('other', 'L+X', 'Refuse-not-truncate shape of generate_graph, candidate guards, --complete edge-count polynomials, read_graph and colour-product guards as truth tables. Also: value provenance of the arguments main passes to generate_graph / read_graph under the conditions of each call, the three writer modes with (source, target) order, the colour product vertices, truncating output.', 'path-condition extraction, polynomial normal form, structural match'),
  'C19': ('other', 'S+E+G', 'Operation signatures on the tracked cell (incl. aliased operands), query purity (receiver-sensitive), no guard alive across a may-alias write.', 'engine S with tracked RefCell content + receiver-sensitive effect summary + guard regions'),
  'C20': ('proof', 'S+O+X+T+E', 'Per filter value, inductive proof of the implication direction over all child shapes; order obligations at the 3 mk_choice sites; support within support(f). Also: --retain-choices reaches retain_choice_bottom_up unchanged (value provenance), its spellings, and every rebuilt node goes through mk_choice.', 'engine S with implication summaries per filter value'),
